@@ -16,6 +16,17 @@ Proof. simpl; lra. Qed.
 
 Ltac inr_norm := repeat (rewrite ?mult_INR, ?plus_INR, ?INR_2); try (simpl INR).
 
+(** make the arguments of sqrt / ln on the left syntactically equal to ring-equal arguments on the right
+    (so that a harmless reordering inside sqrt(...) or ln(...) in the source does not break [ring]) *)
+Ltac align_args :=
+  repeat match goal with
+  | |- ?lhs = ?rhs =>
+    match lhs with
+    | context [sqrt ?a] => match rhs with context [sqrt ?b] => lazymatch a with b => fail | _ => replace a with b by ring end end
+    | context [ln ?a] => match rhs with context [ln ?b] => lazymatch a with b => fail | _ => replace a with b by ring end end
+    end
+  end.
+
 Lemma ln_INR_nonneg (n : nat) : (1 <= n)%nat -> 0 <= ln (INR n).
 Proof.
   intros Hn.
@@ -41,19 +52,19 @@ Proof. intros Hn. replace 1 with (INR 1) by reflexivity. apply le_INR; exact Hn.
 
 Theorem pelt_penalty_formula (n p : nat) :
   pelt_default_penalty_R n p = 2 * INR p * ln (INR n).
-Proof. unfold pelt_default_penalty_R. inr_norm. ring. Qed.
+Proof. unfold pelt_default_penalty_R. inr_norm. align_args. ring. Qed.
 
 Theorem sbs_threshold_formula (n p : nat) :
   sbs_default_threshold_R n p = 2 * INR p * sqrt (ln (INR n)).
-Proof. unfold sbs_default_threshold_R. inr_norm. ring. Qed.
+Proof. unfold sbs_default_threshold_R. inr_norm. align_args. ring. Qed.
 
 Theorem cbs_threshold_formula (n p maxlen : nat) :
   cbs_default_threshold_R n p maxlen = 2 * INR p * ln (INR n * INR maxlen).
-Proof. unfold cbs_default_threshold_R. inr_norm. ring. Qed.
+Proof. unfold cbs_default_threshold_R. inr_norm. align_args. ring. Qed.
 
 Theorem capa_penalty_formula (n k : nat) (scale : R) :
   capa_penalty_R n k scale = scale * (INR k + 2 * sqrt (INR k * ln (INR n)) + 2 * ln (INR n)).
-Proof. unfold capa_penalty_R. ring. Qed.
+Proof. unfold capa_penalty_R. inr_norm. align_args. ring. Qed.
 
 Theorem dense_formula (n p npv : nat) (scale : R) :
   dense_mvcapa_penalty_alpha_R n p npv scale = capa_penalty_R n (p * npv) scale /\
